@@ -14,7 +14,11 @@ package c05
 // bitmap / re-declared threshold / subset / superset keys, wrappers that do not re-derive from the signed ethereum
 // transaction. Each forged candidate goes (a) alone through FSM.CheckTx, (b) into a block with good neighbours (batch
 // verifier, cold signature cache), (c) again into the next block (warm cache), (d) into a block with bad ed25519
-// signatures (batch failure fallback); one per block is spliced into the proposal and shown to the replica.
+// signatures (batch failure fallback); one per block is spliced into the proposal and shown to the replica. Path (e)
+// then offers small blocks in a chosen mempool order: stranger-signed transactions naming the victim (they take a batch
+// verifier slot before the signer rule turns them away), forged ones with the victim's public key, honest neighbours -
+// the slot / transaction bookkeeping of the batch verification must blame the right transaction. A candidate set the
+// proposer cannot build any block from is retried in halves (counted) instead of ending the case.
 //
 // Oracles: (1) the reference refAuthorised(msg, signer, state) (state_test.go), written from the property statement,
 // decides for every transaction the proposer put into its block - walking the block in order, advancing the reference's
@@ -98,6 +102,9 @@ type env struct {
 	last                              *snap
 	tuples                            map[string]int
 	stop                              bool
+	nviol, bisected                   int
+	lastProposeErr                    string
+	victimSig                         map[string]*lib.Signature // the one genuine signature of each victim (setup order)
 }
 
 func (e *env) next() uint64 { e.seq++; return e.seq }
@@ -856,6 +863,7 @@ func (e *env) viol(kind string, c *cand, path string, w map[string]any) {
 	}
 	w["case"], w["height"] = e.name, e.height()
 	e.run.Count("violation_events_"+kind, 1)
+	e.nviol++
 	e.run.Violation(sig, "^"+e.name+"$", w)
 }
 
@@ -912,19 +920,48 @@ func rehash(b *lib.Block) []byte {
 	return bz
 }
 
-// block offers the candidates (plus neighbours) to the proposer, shows the replica a copy of the proposal with one
-// unauthorised candidate spliced in, commits the honest block on both nodes and judges it.
-func (e *env) block(path string, cs []*cand, extra [][]byte) {
+// block offers the forged candidates together with the honest ones (story step, neighbours) to the proposer. If the
+// proposer cannot build any block from the set (ApplyTransactions aborting is itself abnormal: one bad transaction must
+// never keep the others out) the same forged candidates are retried in halves - the honest ones stay with the first
+// half, the second half gets fresh neighbours - so that the run still ends in judged blocks; only a group of at most
+// one forged candidate that still cannot be built leaves the case inconclusive.
+func (e *env) block(path string, forged, honest []*cand, extra [][]byte) {
 	if e.stop {
 		return
 	}
+	if e.tryBlock(path, forged, honest, extra) {
+		return
+	}
+	e.run.Count("proposer_could_not_build_block", 1)
+	if len(forged) <= 1 || e.bisected >= 40 {
+		e.inconclusive("%s: proposer cannot build a block even from %d forged candidate(s) plus honest neighbours (path %s): %s", e.name, len(forged), path, e.lastProposeErr)
+		e.stop = true
+		return
+	}
+	if e.nviol > 0 {
+		return // the case is refuted already: no need to search this set any further
+	}
+	e.bisected++
+	e.run.Count("candidate_sets_bisected", 1)
+	h := len(forged) / 2
+	e.block(path, forged[:h], honest, extra)
+	e.block(path, forged[h:], e.neighbours(4), nil)
+}
+
+// tryBlock hands one set to the mempool, shows the replica a copy of the proposal with one unauthorised candidate
+// spliced in, commits the honest block on both nodes and judges it. It returns false when the proposer built nothing.
+func (e *env) tryBlock(path string, forged, honest []*cand, extra [][]byte) bool {
+	cs := append(append([]*cand{}, forged...), honest...)
 	var txs [][]byte
 	for _, c := range cs {
 		txs = append(txs, c.raw)
 		e.byHash[c.hash] = c
 	}
 	txs = append(txs, extra...)
-	e.rng.Shuffle(len(txs), func(i, j int) { txs[i], txs[j] = txs[j], txs[i] })
+	all := txs
+	if path != "e" { // path (e) relies on the order in which the mempool receives equal-fee transactions
+		e.rng.Shuffle(len(txs), func(i, j int) { txs[i], txs[j] = txs[j], txs[i] })
+	}
 	ch := e.ch
 	// hand the whole set to the mempool at once (one sort instead of one per transaction); a set the mempool turns away
 	// as a whole (a member failing the stateless checks) goes in one by one through Propose
@@ -933,9 +970,11 @@ func (e *env) block(path string, cs []*cand, extra [][]byte) {
 	}
 	p, err := ch.Propose(0, txs, nil)
 	if err != nil {
-		e.inconclusive("%s: proposer cannot build a block: %v", e.name, err)
-		e.stop = true
-		return
+		e.lastProposeErr = strings.Join(strings.Fields(err.Error()), " ")
+		e.n0.C.Mempool.L.Lock()
+		e.n0.C.Mempool.DeleteTransaction(all...)
+		e.n0.C.Mempool.L.Unlock()
+		return false
 	}
 	before := e.last
 	// walk the proposed block in order: a transaction nobody entitled signed must not be in what the proposer built (it
@@ -971,7 +1010,7 @@ func (e *env) block(path string, cs []*cand, extra [][]byte) {
 			bads = append(bads, c)
 		}
 	}
-	if len(bads) > 0 {
+	if len(bads) > 0 && path != "e" {
 		c := bads[e.rng.Intn(len(bads))]
 		blk := new(lib.Block)
 		if er := lib.Unmarshal(p.BlockBytes, blk); er != nil {
@@ -998,7 +1037,7 @@ func (e *env) block(path string, cs []*cand, extra [][]byte) {
 		}
 		e.run.Count("proposals_with_unauthorised_tx_rejected_by_replica", 1)
 		e.stop = true
-		return
+		return true
 	}
 	vs, er := ch.Committee(ch.Nodes[0], p.QC.Header.RootHeight)
 	if er != nil {
@@ -1015,7 +1054,7 @@ func (e *env) block(path string, cs []*cand, extra [][]byte) {
 		if er := ch.Deliver(i, p.QC, cached, false); er != nil {
 			e.inconclusive("%s: node %d cannot commit the honest block at height %d: %v", e.name, i, p.Block.BlockHeader.Height, er)
 			e.stop = true
-			return
+			return true
 		}
 	}
 	after, e2 := takeSnap(e.n0.C.FSM.Store())
@@ -1046,9 +1085,11 @@ func (e *env) block(path string, cs []*cand, extra [][]byte) {
 			suspects = suspects[:12]
 		}
 		e.run.Count("violation_events_"+strings.Fields(f.kind)[0], 1)
+		e.nviol++
 		e.run.Violation(f.kind+" path="+path, "^"+e.name+"$", map[string]any{"case": e.name, "height": p.Block.BlockHeader.Height, "detail": f.detail,
 			"included": len(p.Block.Transactions), "some_unauthorised_candidates_in_mempool": suspects})
 	}
+	return true
 }
 
 // applied keeps the harness' own notes about the honest story up to date (order amounts).
@@ -1132,11 +1173,71 @@ func (e *env) round(r int, forged []*cand) {
 			crypto.SignatureCache.Reset()
 			extra = e.badEd(24)
 		}
-		e.block(path, append(append(append([]*cand{}, forged...), honest...), e.neighbours(nbs)...), extra)
+		e.block(path, forged, append(honest, e.neighbours(nbs)...), extra)
 		for _, c := range honest {
 			if c.must && c.mt == fsm.MessageCertificateResultsName {
 				e.certHeight++
 			}
+		}
+	}
+}
+
+// pathE: small blocks whose order in the mempool (fee descending) is chosen: validly signed transactions of a stranger
+// that name the victim's account (U: they occupy a slot in the batch verifier and are then turned away by the signer
+// rule), forged transactions that carry the victim's public key and a signature the victim never made, or made over
+// something else (F: they pass everything but the batch verification), and honest neighbours (N), in every relative
+// order. The bookkeeping between batch slots and transactions must survive the U's: the F's must not execute, the N's must.
+func (e *env) pathE(idx int) {
+	perms := []string{"UFNNN", "FUNNN", "UUFNNN", "NUFNN", "UNFNN", "UFFNNN", "UNUFN", "NNUF"}
+	nbKinds := []string{kEd, kSecp, kEth, kBLS}
+	for ki, k := range nativeKinds {
+		var chosen []string
+		if core.Thorough() {
+			chosen = perms
+		} else {
+			chosen = []string{perms[(idx+ki)%len(perms)]}
+		}
+		for _, perm := range chosen {
+			if e.stop {
+				return
+			}
+			var forged, honest []*cand
+			str, vic := e.stranger[k], e.victim[k]
+			for i, r := range perm {
+				fee := e.fee(fsm.MessageSendName) + uint64(len(perm)-i)*100
+				switch r {
+				case 'U':
+					tx := e.newTx(&fsm.MessageSend{FromAddress: vic.addr(), ToAddress: str.addr(), Amount: e.uniq()}, "")
+					tx.Fee = fee
+					signTx(tx, str)
+					forged = append(forged, e.mk(fsm.MessageSendName, k, "stranger", "none", tx, str.addr()))
+				case 'F':
+					tx := e.newTx(&fsm.MessageSend{FromAddress: vic.addr(), ToAddress: str.addr(), Amount: e.uniq()}, "")
+					tx.Fee = fee
+					tamper := "public-key-replaced-by-owner"
+					if lifted := e.victimSig[k]; lifted != nil && e.rng.Intn(2) == 0 {
+						tx.Signature, tamper = &lib.Signature{PublicKey: lifted.PublicKey, Signature: lifted.Signature}, "signature-lifted-from-other-tx"
+					} else {
+						signTx(tx, str)
+						tx.Signature.PublicKey = vic.pub()
+					}
+					forged = append(forged, e.mk(fsm.MessageSendName, k, "stranger", tamper, tx, nil))
+				default:
+					q := e.nb[nbKinds[(i+ki)%len(nbKinds)]]
+					tx := e.newTx(&fsm.MessageSend{FromAddress: q.addr(), ToAddress: freshAddr(fmt.Sprint(e.name, "/nbe/", e.next())), Amount: e.uniq()}, "")
+					tx.Fee = fee
+					signTx(tx, q)
+					c := e.mk(fsm.MessageSendName, q.kind, "owner", "none", tx, q.addr())
+					c.must = true
+					honest = append(honest, c)
+				}
+			}
+			crypto.SignatureCache.Reset()
+			e.pathA(append(append([]*cand{}, forged...), honest...))
+			crypto.SignatureCache.Reset()
+			e.run.Count("path_e_small_ordered_blocks", 1)
+			e.run.Distinct("path-e|" + k + "|" + perm)
+			e.block("e", forged, honest, nil)
 		}
 	}
 }
@@ -1248,8 +1349,10 @@ func (e *env) setup(idx int) {
 		into[key] = c.hashBytes()[:20]
 		cs = append(cs, c)
 	}
+	e.victimSig = map[string]*lib.Signature{}
 	for _, k := range nativeKinds {
 		mkOrder(e.victim[k], e.vOrder, k)
+		e.victimSig[k] = cs[len(cs)-1].tx.Signature
 		mkOrder(e.actor[k], e.keepOrder, k)
 	}
 	// the wallet key: a keep-order through a wrapper
@@ -1264,7 +1367,7 @@ func (e *env) setup(idx int) {
 		d.must = true
 		cs = append(cs, d)
 	}
-	e.block("b", append(cs, e.neighbours(4)...), nil)
+	e.block("b", nil, append(cs, e.neighbours(4)...), nil)
 }
 
 // story returns the honest candidates of round r.
@@ -1392,6 +1495,7 @@ func runCase(t *testing.T, run *core.Run, name string, idx int, rng *rand.Rand) 
 		}
 		e.round(r, forged)
 	}
+	e.pathE(idx)
 	if !e.stop {
 		e.cacheProbes()
 	}
@@ -1403,7 +1507,7 @@ func TestCheck(t *testing.T) {
 	run := core.Start(t, "C05", "exploration",
 		"candidates = (message type of 16) x (key type: ed25519, secp256k1, eth-secp256k1, BLS, 2-of-3 BLS multisig, RLP, RLP.V2) x (who signed: owner / operator / output / previous output / stranger / "+
 			"address-prefix twin / proposer / committee member) x (tampering: none, each signed transaction field, payload fields, claimed owner, payload type, lifted signature, replaced public key, multisig "+
-			"threshold games, wrapper not re-deriving), each through (a) CheckTx alone (b) block with cold signature cache (c) block with warm cache (d) block whose ed25519 batch fails; "+
+			"threshold games, wrapper not re-deriving), each through (a) CheckTx alone (b) block with cold signature cache (c) block with warm cache (d) block whose ed25519 batch fails (e) small blocks in a chosen order U(nauthorised, validly signed) / F(orged with the owner's key) / N(eighbour); "+
 			"distinct_nontrivial = distinct (message type, key type, signer relation, tampering, path) whose CheckTx verdict was acceptance or a signature / signer error (i.e. not turned away earlier)")
 	defer run.Finish()
 	run.MinDistinct = 400
